@@ -94,16 +94,26 @@ def make_meta_text(fixture_key, nap, ns, shank_of=None, size_fields="complete",
     return "\n".join(out) + "\n"
 
 
-def make_data(data_seed, ns, nap, saturate=None, amp=600, maxint=8192):
+def make_data(data_seed, ns, nap, saturate=None, amp=600, maxint=8192, smooth=False):
     """
     Seeded int16 content with structure: per-channel offsets, correlated noise, and a sync word
     that is a ramp with period 65536 so each frame is attributable.
-    :param saturate: optional list of (first, last, frac_channels) stretches set to +-maxint-1
+    :param saturate: optional list of (first, last, frac_channels) stretches set to +-(maxint-1)
+    :param smooth: slow sinusoids + small white noise (sample-to-sample steps stay far below the
+        slew threshold of the saturation detector), amplitude `amp`
     """
     g = np.random.Generator(np.random.PCG64(data_seed))
     nc = nap + 1
-    common = g.normal(0, amp / 3, size=(ns, 1))
-    d = g.normal(0, amp, size=(ns, nap)) + common + g.integers(-50, 50, size=(1, nap))
+    if smooth:
+        t = np.arange(ns)[:, None]
+        f = g.uniform(0.0005, 0.004, size=(3, nap))
+        ph = g.uniform(0, 2 * np.pi, size=(3, nap))
+        d = sum(np.sin(2 * np.pi * f[i] * t + ph[i]) for i in range(3)) * (amp / 3)
+        d = d + np.sin(2 * np.pi * 0.0021 * t) * (amp / 4) + g.normal(0, max(1.0, amp / 25), size=(ns, nap))
+        d = d + g.integers(-5, 5, size=(1, nap))
+    else:
+        common = g.normal(0, amp / 3, size=(ns, 1))
+        d = g.normal(0, amp, size=(ns, nap)) + common + g.integers(-50, 50, size=(1, nap))
     d = np.clip(np.rint(d), -maxint + 1, maxint - 1).astype(np.int16)
     if saturate:
         for a, b, frac in saturate:
